@@ -9,11 +9,31 @@ from ..ir import callee, walk
 ALLOW_PATH = os.path.join(os.path.dirname(os.path.dirname(os.path.dirname(os.path.abspath(__file__)))), "spec", "allow.json")
 
 
+class Allow(dict):
+    """allow-list with hit tracking: an entry that matches nothing any more is reported (fail closed)"""
+
+    def __init__(self, d):
+        super().__init__(d)
+        self.hits = set()
+
+    def get(self, k, default=None):
+        if k in self:
+            self.hits.add(k)
+        return super().get(k, default)
+
+    def stale(self, rule_name, props):
+        for (r, key) in self:
+            if r == rule_name and (r, key) not in self.hits:
+                yield ob(props, rule_name, "STALE-ALLOW:" + key.split(":", 1)[1], "violation", "",
+                         f"allow-list entry {key} matches no site any more: the anchor it was reviewed for is gone "
+                         f"(renamed or removed); re-triage (fail closed)")
+
+
 def allow():
     try:
-        return {(a["rule"], a["key"]): a["reason"] for a in json.load(open(ALLOW_PATH))}
+        return Allow({(a["rule"], a["key"]): a["reason"] for a in json.load(open(ALLOW_PATH))})
     except OSError:
-        return {}
+        return Allow({})
 
 
 def skip_fn(f):
@@ -80,6 +100,7 @@ def i1(facts, tier):
                          f"stream can be accepted as complete data")
         else:
             yield ob(["C07", "C08"], "I1", key, "pass", where(f, x), f"exact read {c}")
+    yield from al.stale("I1", ["C07", "C08"])
 
 
 @rule("I2", ["C08"], floor=30, doc="all output goes through write_all / byteorder (short writes and Interrupted are then "
@@ -97,7 +118,7 @@ def i2(facts, tier):
             if x.get("trait") in ("std::io::Write", "byteorder::io::WriteBytesExt"):
                 items.append((f"{f['id']}:{c.split('::')[-1]}", (f, x, c)))
     for key, (f, x, c) in ordinal_keys(items):
-        if c in INEXACT_WRITES and ("I2", "I2:" + key) not in al:
+        if c in INEXACT_WRITES and al.get(("I2", "I2:" + key)) is None:
             yield ob(["C08"], "I2", key, "violation", where(f, x),
                      f"{f['id']} calls {c}: a short write silently drops the rest of the buffer")
         else:
@@ -148,6 +169,7 @@ def i3(facts, tier):
             yield ob(props, "I3", key, "undecided", where(f, x), f"fate of the result of {c} not modelled")
         else:
             yield ob(props, "I3", key, "pass", where(f, x), f"{c}: {ft}", nontrivial=True)
+    yield from al.stale("I3", ["C08", "C14"])
 
 
 # ---------------------------------------------------------------------------
